@@ -222,7 +222,7 @@ Section Total.
         split; [right; exists buf, line; auto|]. rewrite S', Hn. lia.
       + specialize (IH (buf ++ line) s'). rewrite S' in IH.
         destruct IH as (b' & l' & e' & s'' & H1 & H2 & H3); [lia|].
-        rewrite app_length, Len in H1. exists b', l', e', s''.
+        exists b', l', e', s''.
         split; [exact H1|]. split; [exact H2|]. rewrite Hn. lia.
     - destruct (read_line s buf) as [[r b] s'] eqn:RL. cbn [fst snd] in *. inversion R; subst r b.
       exists buf, (length buf), (Some EIo), s'. split; [reflexivity|]. split; [left; reflexivity|].
@@ -246,11 +246,11 @@ Section Total.
       destruct (length line) as [|n] eqn:Len; [destruct line; [congruence|discriminate]|].
       rewrite (str_from_app buf line (valid_line_head _ U)). cbn [rbind].
       destruct (starts_with slashes line) eqn:SW.
-      + exists (buf ++ line), false, s'. rewrite app_length, Len. split; [reflexivity|].
+      + exists (buf ++ line), false, s'. split; [reflexivity|].
         right. rewrite S', Hn. lia.
       + specialize (IH (buf ++ line) s'). rewrite S' in IH.
         destruct IH as (b' & io' & s'' & H1 & H2); [lia|].
-        rewrite app_length, Len in H1. exists b', io', s''. split; [exact H1|].
+        exists b', io', s''. split; [exact H1|].
         right. rewrite Hn. destruct H2 as [(_ & _ & H2 & _)|H2]; [rewrite H2; simpl; unfold nlines; simpl|]; lia.
     - destruct (read_line s buf) as [[r b] s'] eqn:RL. cbn [fst snd] in *. inversion R; subst r b.
       exists buf, true, s'. split; [reflexivity|]. right. rewrite S', Hn. lia.
